@@ -47,11 +47,12 @@ func (i *Ignore) load(rootGoitPath string) error {
 	for scanner.Scan() {
 		text := scanner.Text()
 		var replacedText string
+		// everything except '*' is literal text, so it must not be read as regexp syntax
+		quotedText := strings.ReplaceAll(regexp.QuoteMeta(text), `\*`, ".*")
 		if directoryRegexp.MatchString(text) {
-			replacedText = fmt.Sprintf("%s.*", text)
+			replacedText = fmt.Sprintf("%s.*", quotedText)
 		} else {
-			replacedText = strings.ReplaceAll(text, ".", `\.`)
-			replacedText = strings.ReplaceAll(replacedText, "*", ".*")
+			replacedText = quotedText
 		}
 		i.paths = append(i.paths, replacedText)
 	}
